@@ -81,8 +81,15 @@ def run(ctx):
 
 def r1(ctx, g):
     f = ctx.repo.func("c2profile.C2Profile.as_dict")
-    lp = [v for st, v in assignments_to(f.node, "list_props")]
-    props = _c(lp[0]) if len(lp) == 1 else None
+    # the list of list-valued block paths: the list literal tested with `key in <list>` to decide about bytes decoding
+    lp_name = None
+    for n in body_walk(f.node):
+        if isinstance(n, ast.Compare) and isinstance(n.ops[0], ast.In) and isinstance(n.comparators[0], ast.Name):
+            d = [v for st, v in assignments_to(f.node, n.comparators[0].id)]
+            if len(d) == 1 and isinstance(d[0], (ast.List, ast.Tuple, ast.Set)) and d[0].elts and all(isinstance(_c(e), str) and "." in _c(e) for e in d[0].elts):
+                lp_name = n.comparators[0].id
+    lp = [v for st, v in assignments_to(f.node, lp_name)] if lp_name else []
+    props = list(_c(lp[0])) if len(lp) == 1 and _c(lp[0]) is not None else None
     if not isinstance(props, list):
         ctx.ob("R1", "TABLE", f, "list_props", False, "list_props is not a literal list")
         return
@@ -102,7 +109,7 @@ def r1(ctx, g):
         ctx.ob("R1", "GRAM", "c2profile.lark", f"path {p}", p in paths, f"reference path {p!r} exists in the grammar={p in paths}", nontrivial=False)
     # values under those keys are decoded to bytes
     dec = [c for c in fn_calls(f.node) if dotted(c.func) == "string_token_to_bytes"]
-    ok = bool(dec) and all(guarded_by(ctx, f, c, lambda t: True if any(isinstance(op, ast.In) and dotted(r) == "list_props" and dotted(l) == "key" for l, op, r in compare_parts(t)) else None) for c in dec)
+    ok = bool(dec) and all(guarded_by(ctx, f, c, lambda t: True if any(isinstance(op, ast.In) and dotted(r) == lp_name for l, op, r in compare_parts(t)) else None) for c in dec)
     ctx.ob("R1", "AGREE", f, "string_token_to_bytes under `key in list_props`", ok, "list-valued entries are decoded to bytes" if ok else "list_props values are not decoded with string_token_to_bytes")
     # STRING tokens are unquoted by removing exactly the first and the last character, the way the grammar delimits them
     # (and string_token_to_bytes does): [1:-1]; strip()/replace() would eat quotes that belong to the value
